@@ -56,6 +56,8 @@ func (s lcStep) String() string {
 		return fmt.Sprintf("%s#%d(%s,%s)", s.Kind, s.Sess, s.Cause, s.Cause2)
 	case "gateTableDelete":
 		return fmt.Sprintf("gateTableDelete#%d(%s,rev%d,%s)", s.Sess, s.Car, s.Rev, s.Cause)
+	case "gateTableLoad":
+		return fmt.Sprintf("gateTableLoad#%d(rev%d)", s.Sess, s.Rev)
 	case "gateClose", "sendWindow", "closeWindow":
 		return fmt.Sprintf("%s#%d(%s)", s.Kind, s.Sess, s.Cause)
 	case "advance":
@@ -167,7 +169,7 @@ func genLC(rt *rapid.T, gates bool, known map[string]bool, col *Collector) []lcS
 			}
 		}
 		if gates && nsess < 3 {
-			kinds = append(kinds, "gateTableDelete", "gateTableDelete")
+			kinds = append(kinds, "gateTableDelete", "gateTableDelete", "gateTableLoad", "gateTableLoad")
 			if !known[sigDiedInHS] {
 				kinds = append(kinds, "gateHandshake")
 			} else {
@@ -180,7 +182,7 @@ func genLC(rt *rapid.T, gates bool, known map[string]bool, col *Collector) []lcS
 		k := rapid.SampledFrom(kinds).Draw(rt, l+".kind")
 		st := lcStep{Kind: k}
 		switch k {
-		case "hs", "gateHandshake", "gateTableDelete":
+		case "hs", "gateHandshake", "gateTableDelete", "gateTableLoad":
 			st.Sess = nsess
 			st.Car = rapid.SampledFrom(carriers).Draw(rt, l+".car")
 			if k == "gateTableDelete" {
@@ -963,6 +965,41 @@ func runLC(steps []lcStep) (*lcWorld, bubbleResult) {
 				}
 				<-done
 				Settle()
+			case "gateTableLoad":
+				// a fresh polling session's first request is held inside the table lookup, between its lock-free miss
+				// (the entry is new since the table was last consolidated) and taking the table's lock, while
+				// requests naming unknown ids and iterations consolidate the table: the session must be found
+				hs := st
+				hs.Kind, hs.Car = "hs", "polling"
+				lw.handshake(hs)
+				s = lw.sess[st.Sess]
+				if s == nil || s.sr == nil || s.pc == nil || len(s.sr.Closes) > 0 {
+					break
+				}
+				lw.g.mu.Lock()
+				lw.g.stackPlan["map.Load.missed"] = "baseServer).Verify"
+				lw.g.mu.Unlock()
+				gp := GatePoint{"map.Load.missed", -1}
+				ex := s.pc.StartPoll()
+				Settle()
+				if lw.parked(gp) {
+					lw.stats["table-consolidated-inside-lookup-window"] = true
+					for k := 0; k < 4; k++ {
+						Do(w.Srv, NewReq("GET", w.Path, fmt.Sprintf("EIO=4&transport=polling&sid=nosuch%d", k)))
+					}
+					Settle()
+					w.Srv.Clients().Keys()
+					w.Srv.Clients().Len()
+					lw.g.Release(gp)
+					Settle()
+					if snap := ex.Snap(); snap.Responded && snap.Status != 200 {
+						lw.f04("%s: the request of live session #%d was answered %v: its lookup ran while other requests named unknown session ids", what, st.Sess, snap)
+					}
+				} else {
+					lw.g.mu.Lock()
+					delete(lw.g.stackPlan, "map.Load.missed")
+					lw.g.mu.Unlock()
+				}
 			case "closeWindow":
 				// the session closes while an upgrade candidate has been probed; an application close listener
 				// (registered before the candidate appeared, so it runs before the library's own bookkeeping for
@@ -1236,7 +1273,7 @@ func TestC04Registry(t *testing.T) {
 			}
 		})
 	}
-	req := []string{"server-close", "shutdown>=2-sessions", "activity-after-close", "table-consolidated-inside-delete-window", "closed-inside-the-connection-listener", "server-write-fails-before-its-reader-notices", "peer-stops-reading"}
+	req := []string{"server-close", "shutdown>=2-sessions", "activity-after-close", "table-consolidated-inside-delete-window", "table-consolidated-inside-lookup-window", "closed-inside-the-connection-listener", "server-write-fails-before-its-reader-notices", "peer-stops-reading"}
 	if !known[sigDiedInHS] {
 		req = append(req, "cause-during-handshake")
 	}
